@@ -160,6 +160,10 @@ func (b *build) runRealCase(doc []docAgent, c realCase, n int) (sig, detail stri
 		// an unusual but valid relative path: dot segments, a space, a component that is just "~"
 		args = append(args, "--path", "./a b/../~/x")
 		base = filepath.Join(cwd, "~", "x")
+	case c.Path == "named":
+		// the last path element is the name of the skill directory itself: the skill still goes one level below it
+		args = append(args, "--path", "vendor/kessoku-di")
+		base = filepath.Join(cwd, "vendor", "kessoku-di")
 	case c.Path == "tilde":
 		// a relative path whose FIRST element is "~": it names a directory called "~" under the
 		// current directory. The tail re-enters this case's private directory from one level above a
@@ -320,9 +324,9 @@ func (b *build) realCLI(out *drv.Outcome) map[string]any {
 	}
 	var cases []realCase
 	for _, a := range doc {
-		for _, f := range []realCase{{}, {User: true}, {Path: "rel"}, {Path: "abs"}, {Path: "rel", User: true}, {Path: "odd"}, {Path: "tilde"}, {Path: "tilde", User: true}} {
+		for _, f := range []realCase{{}, {User: true}, {Path: "rel"}, {Path: "abs"}, {Path: "rel", User: true}, {Path: "odd"}, {Path: "named"}, {Path: "tilde"}, {Path: "tilde", User: true}} {
 			pres := []string{"fresh", "older"}
-			if f.Path != "tilde" && f.Path != "odd" {
+			if f.Path != "tilde" && f.Path != "odd" && f.Path != "named" {
 				pres = append(pres, "linked")
 			}
 			for _, pre := range pres {
@@ -343,7 +347,7 @@ func (b *build) realCLI(out *drv.Outcome) map[string]any {
 		}
 	}
 	info["runs"] = len(cases)
-	info["matrix"] = fmt.Sprintf("%d agents x 8 flag combinations (default, --user, --path rel/abs, --path+--user, odd relative path, relative path starting with ~ with and without --user) x 2 prior states, real binary, real filesystem, private HOME and cwd", len(doc))
+	info["matrix"] = fmt.Sprintf("%d agents x 9 flag combinations (default, --user, --path rel/abs, --path+--user, odd relative path, path ending in the skill directory name, relative path starting with ~ with and without --user) x 2 prior states, real binary, real filesystem, private HOME and cwd", len(doc))
 	return info
 }
 
